@@ -34,7 +34,7 @@ func MustCompile(expression string) *JMESPath {
 
 // Search evaluates a JMESPath expression against input data and returns the result.
 func (jp *JMESPath) Search(data interface{}) (interface{}, error) {
-	return jp.intr.Execute(jp.ast, data)
+	return jp.intr.Execute(jp.ast, rootValue(data))
 }
 
 // Search evaluates a JMESPath expression against input data and returns the result.
@@ -45,5 +45,5 @@ func Search(expression string, data interface{}) (interface{}, error) {
 	if err != nil {
 		return nil, err
 	}
-	return intr.Execute(ast, data)
+	return intr.Execute(ast, rootValue(data))
 }
